@@ -16,7 +16,7 @@ PROP = "C11"
 LEVEL = "exploration"
 BUDGET = {"quick": 150, "thorough": 900}
 RULE = ("Histories of 2-14 operations (add / update / replace with description / disable / enable / move / remove / restart) "
-        "over 4 generated names (single-line text incl. spaces, punctuation, non-ASCII), generated descriptions, a marker "
+        "over 4 generated names (single-line text incl. spaces, punctuation, non-ASCII; one name argument in five handed to add / update / replace as its UTF-8 bytes), generated descriptions, a marker "
         "prefix pair drawn per run, definitions from every documented form with values that need no escaping; 1-4 restarts "
         "per history, each local or end-to-end through the real client and the reference server. Non-trivial: at least one "
         "restart with a non-empty set. Distinct = (number of filters, enabled bits, descriptions present, prefix pair, restart "
@@ -150,6 +150,16 @@ def e2e_roundtrip(ch, config, text, res):
         return o.value, None
 
 
+def as_arg(wl, label, name):
+    """The API takes names as str or as their UTF-8 bytes: one name argument in five is handed over as bytes."""
+    if name is not None and wl.flag(label, 1, 5):
+        try:
+            return name.encode("utf-8")
+        except UnicodeEncodeError:
+            return name
+    return name
+
+
 def run(ch, config, res):
     from sievelib.factory import FiltersSet
     wl = ch.wl
@@ -213,12 +223,14 @@ def run(ch, config, res):
                 conds, acts, mt = E.fill(struct, values)
                 default_mt = mt == "anyof" and wl.flag("default_matchtype", 1, 2)
                 if op == "add":
-                    rc = E.classify(lambda: (fs.addfilter(n, conds, acts, mt) if not default_mt else fs.addfilter(n, conds, acts), True)[1])
+                    na = as_arg(wl, "bytes_name", n)
+                    rc = E.classify(lambda: (fs.addfilter(na, conds, acts, mt) if not default_mt else fs.addfilter(na, conds, acts), True)[1])
                     if rc[0] == "ok":
                         model.append(MF(n, struct, values))
                 else:
                     n2 = names[wl.int("name2", len(names))]
-                    rc = E.classify(lambda: (fs.updatefilter(n, n2, conds, acts, mt) if not default_mt else fs.updatefilter(n, n2, conds, acts)))
+                    na, n2a = as_arg(wl, "bytes_name", n), as_arg(wl, "bytes_newname", n2)
+                    rc = E.classify(lambda: (fs.updatefilter(na, n2a, conds, acts, mt) if not default_mt else fs.updatefilter(na, n2a, conds, acts)))
                     if rc[0] == "ok":
                         m = model[find(n)]
                         m.name, m.struct, m.values = n2, struct, values
@@ -243,7 +255,8 @@ def run(ch, config, res):
                     desc = desc.replace("#", "h")
                 # one replace in three also renames - onto a free name or onto a name that is taken (refused: nothing changes)
                 n2 = names[wl.int("name2", len(names))] if wl.flag("rename", 1, 3) else None
-                rc = E.classify(lambda: fs.replacefilter(n, content, n2, desc))
+                na, n2a = as_arg(wl, "bytes_name", n), as_arg(wl, "bytes_newname", n2)
+                rc = E.classify(lambda: fs.replacefilter(na, content, n2a, desc))
                 if rc[0] == "ok":
                     if desc is not None:
                         model[find(n)].desc = desc
